@@ -134,14 +134,16 @@ def m_write_fmt(I, st, c, args, body, t):
         inner = sink
         if isinstance(cur, RefV):           # &mut &mut String
             inner, cur = cur, deref(I, st, cur)
-        if _lit(cur) is not None:
+        if isinstance(cur, StrV):
+            # `write!` into a String: <String as fmt::Write>::write_str cannot fail, and the Display impls of the primitive
+            # types only pass its result on
             a = deref(I, st, args[1]) if isinstance(args[1], RefV) else args[1]
-            s = render(a)
+            s = render(a) if _lit(cur) is not None else None
             if s is not None:
                 M2._store(I, st, inner, StrV("lit", text=cur.text + s), t)
-                return st, EnumV(RES, {"Ok": ((UNIT,), {})})
-            M2._store(I, st, inner, StrV("opaque", deps=deps_of(cur) | deps_of(a)), t)
-            return st, EnumV(RES, {"Ok": ((UNIT,), {}), "Err": ((OpaqueV("error"),), {})})
+            else:
+                M2._store(I, st, inner, StrV("opaque", deps=deps_of(cur) | deps_of(a)), t)
+            return st, EnumV(RES, {"Ok": ((UNIT,), {})})
     return _prev_write_fmt(I, st, c, args, body, t)
 
 
